@@ -124,8 +124,9 @@ def ref_name_matches(canon: str, id_kind: str, sans) -> bool:
     return False
 
 
-def ref(kind, identity, trust, insecure):
-    """-> (accept, [reasons for refusal])"""
+def ref(kind, identity, trust, insecure, src="address"):
+    """-> (accept, [reasons for refusal]).  src "no_name": mitmproxy is told to use no server name at all
+    (server.sni == ""): there is nothing the certificate could be checked against, so no certificate 'names the server'"""
     cn, sans, issuer, days, sent = ALL_KINDS[kind]
     id_kind, canon = ALL_IDS[identity]
     why = []
@@ -139,7 +140,7 @@ def ref(kind, identity, trust, insecure):
         why.append("chain")
     if not (days[0] < 0 < days[1]) or issuer == "interExpired":
         why.append("time")
-    if not ref_name_matches(canon, id_kind, sans):
+    if src == "no_name" or not ref_name_matches(canon, id_kind, sans):
         why.append("name")
     return (insecure or not why), why
 
@@ -231,7 +232,7 @@ def id_class(identity):
 def run_case(c, t: Tally, verbose=False):
     p = setup()
     kind, identity, src, trust, insecure, tls, opens, ccert = c["kind"], c["id"], c["src"], c["trust"], c["insecure"], c["tls"], c["opens"], c["client_cert"]
-    accept, why = ref(kind, identity, trust, insecure)
+    accept, why = ref(kind, identity, trust, insecure, src)
     opts = dict(p["opts"][trust], ssl_insecure=insecure)
     if ccert:
         opts["client_certs"] = p["client_cert"]["leaf" if ccert is True else ccert]
@@ -240,6 +241,9 @@ def run_case(c, t: Tally, verbose=False):
         kw = dict(sni=None, address=(identity, 443))
     elif src == "client_sni":
         kw = dict(sni=identity, address=(OTHER_ADDR, 443))
+    elif src == "no_name":
+        # an addon (or `server.sni = ""`, the documented way to suppress the SNI) leaves no name to verify; the address is all there is
+        kw = dict(sni=None, server_sni="", address=(identity, 443))
     elif src == "upstream_proxy":
         # --mode upstream:https://<identity>:8080 - the verified connection is the one to the proxy, not context.server
         kw = dict(sni="origin.example.net", address=("origin.example.net", 443), proxy_address=(identity, 8080))
@@ -273,7 +277,9 @@ def run_case(c, t: Tally, verbose=False):
     f = {"kind": kind, "id_kind": id_class(identity), "src": src, "trust": trust, "insecure": insecure, "expect": "accept" if accept else "refuse", "why": "+".join(why) if not insecure else "insecure",
          "client_cert": ccert}
     ran = peer.fed > 0
-    t.judge("no_crash", rig.crash is None and not rig.addon_errors, f, c, "no exception out of mitmproxy", {"crash": rig.crash, "addon_errors": rig.addon_errors})
+    # an exception inside the addon's hook is caught and logged by the real AddonManager (that is how tls_start_server refuses
+    # "no name to verify"); what happens next is judged by the outcome clauses.  An exception out of the layers is a crash.
+    t.judge("no_crash", rig.crash is None, f, c, "no exception out of the proxy layers", {"crash": rig.crash, "addon_errors": rig.addon_errors})
     if accept:
         ok = established and not failed and rig.crash is None and (not opens or rig.open_result == ("ok",))
         t.judge("accepts_insecure" if (insecure and why) else "accepts_valid_chain", ok, f, c, "handshake completes", obs)
@@ -293,7 +299,7 @@ def run_case(c, t: Tally, verbose=False):
     t.judge("tls_failed_server_hook_and_error_set", hook_ok, f, c, "exactly one tls_failed_server with conn.error set (and an error reply to the inner layer)", obs)
     t.judge("no_app_data_reaches_server", len(peer.plain) == 0 and not peer.done, f, c, "the server decrypts nothing", obs)
     rc = reason_class(err)
-    if rc not in why:
+    if err and src != "no_name" and rc not in why:
         t.note("refusal reason %r where the reference expected one of %s (kind=%s id=%s)" % (rc, why, kind, id_class(identity)))
     t.case(c if len(t.samples) < 2 else None, nontrivial=ran and refused, key=c)
     t.outcome(["refuse", kind, id_class(identity), trust, rc, refused])
@@ -320,7 +326,7 @@ def cases(tier):
                 for kind in kinds:
                     g = []
                     for identity in ids:
-                        srcs = ["address"] + (["client_sni"] if id_class(identity) in ("dns", "dns-upper", "idn") else []) + ["upstream_proxy"] + (["server_sni"] if thorough else [])
+                        srcs = ["address"] + (["client_sni"] if id_class(identity) in ("dns", "dns-upper", "idn") else []) + ["upstream_proxy", "no_name"] + (["server_sni"] if thorough else [])
                         for src in srcs:
                             for tls in ("1.3", "1.2"):
                                 for opens in (True, False):
@@ -339,7 +345,8 @@ def run(ctx):
     ctx.bounds = {
         "certificate_kinds": list(KINDS) + (list(THOROUGH_KINDS) if thorough else []),
         "identities": list(IDENTITIES) + (list(THOROUGH_IDENTITIES) if thorough else []),
-        "identity_source": ["server address", "client SNI (DNS identities)", "address of an upstream HTTPS proxy (ServerTLSLayer over a connection that is not context.server)"]
+        "identity_source": ["server address", "client SNI (DNS identities)", "address of an upstream HTTPS proxy (ServerTLSLayer over a connection that is not context.server)",
+                            "no name at all (server.sni == '' with a name or IP address): refusal expected unless ssl_insecure"]
         + (["server.sni preset by an addon"] if thorough else []),
         "trust_configuration": TRUSTS, "ssl_insecure": [False, True], "tls_versions": ["1.3", "1.2"], "connection_opened_by": ["inner layer (OpenConnection)", "already open (eager)"],
         "client_certs": ctx.pick("unset; key+certificate PEM / PEM bundle that also carries the client certificate's issuing CA (root B), for trust file:A and default (TLS 1.3, inner layer opens)",
@@ -350,7 +357,7 @@ def run(ctx):
     seen = set()
     for g in groups:
         for c in g:
-            a, why = ref(c["kind"], c["id"], c["trust"], c["insecure"])
+            a, why = ref(c["kind"], c["id"], c["trust"], c["insecure"], c["src"])
             seen.add((a, tuple(why)) if not c["insecure"] else ("insecure", bool(why)))
     for need in [(True, ()), (False, ("name",)), (False, ("chain",)), (False, ("time",)), ("insecure", True)]:
         if need not in seen:
